@@ -105,7 +105,15 @@ def run_cases(prop, cases, budget=None, procs=None):
     procs = procs or NCPU
     t0 = time.time()
     results = []
-    if procs <= 1 or len(cases) < 4:
+    inline = [c for c in cases if c.get("inline")]
+    if inline and len(inline) < len(cases):
+        # cases that start their own process pool cannot run inside a (daemonic) pool worker: run them here, in the parent
+        _worker_init(prop)
+        for c in inline:
+            results.append(_worker(c))
+        rest, sk = run_cases(prop, [c for c in cases if not c.get("inline")], budget=(budget - (time.time() - t0)) if budget else None, procs=procs)
+        return results + rest, sk
+    if procs <= 1 or len(cases) < 4 or inline:
         _worker_init(prop)
         for c in cases:
             if budget and time.time() - t0 > budget:
